@@ -145,9 +145,36 @@ pub fn run(args: &Args) {
                     unreachable!();
                 }
             }
+            // now and then a snapshot is loaded in the middle of the frame, after the program's writes (a host does that
+            // at a breakpoint stop): from the next frame on the whole border shows the snapshot's colour
+            let mut midload: i32 = -1;
+            if r.chance(1, 6) {
+                let now = emu.verif_frame_clocks();
+                if now + 200 < frame_len {
+                    emu.verif_wait(r.below((frame_len - now - 100) as u64) as usize);
+                    let mut banks: Vec<Vec<u8>> = (0..8).map(|_| vec![0u8; 16384]).collect();
+                    banks[2][..4].copy_from_slice(&[0xED, 0x79, 0x18, 0xFE]);
+                    let b = r.below(8) as u8;
+                    let d = MachineDesc {
+                        m128,
+                        cpu: CpuDesc { af: 0, bc: 0, de: 0, hl: 0, af_: 0, bc_: 0, de_: 0, hl_: 0, ix: 0, iy: 0,
+                                       sp: 0xBFF0, pc: CODE + 2, i: 0, r: 0, iff1: false, iff2: false, im: 1 },
+                        border: b,
+                        latch: 0,
+                        banks,
+                    };
+                    if r.chance(1, 2) {
+                        let bytes = if m128 { sna128(&d) } else { sna48(&d) };
+                        emu.load_snapshot(Snapshot::Sna(VAsset::new(bytes))).unwrap();
+                    } else {
+                        emu.load_snapshot(Snapshot::Szx(VAsset::new(szx(&d, &SzxOpts::default())))).unwrap();
+                    }
+                    midload = b as i32;
+                }
+            }
             finish_frame(&mut emu);
             out.ev(json!({"ev":"bframe","writes":writes,"rows":rows(&emu),"reported":emu.border_color() as u8,
-                          "startcolor":startcolor}));
+                          "startcolor":startcolor,"midload":midload}));
             startcolor = emu.border_color() as u8;
         }
     }
